@@ -19,8 +19,10 @@ from fractions import Fraction
 import numpy as np
 from common import *
 
-IMPORTS = ("From CV Require Import Base.Cmp Base.LinAlg Model.C10_Conj Model.C10_ConjR.\n"
-           "From Coq Require Import QArith Reals String List.\nFrom Interval Require Import Tactic.\nImport ListNotations.\nOpen Scope string_scope.")
+# ONE line: common.run_shards locates a failing ENCLOSURE case by line number assuming a one-line header
+IMPORTS = ("From CV Require Import Base.Cmp Base.LinAlg Model.C10_Conj Model.C10_ConjR. "
+           "From Coq Require Import QArith Reals String List. From Interval Require Import Tactic. "
+           "Import ListNotations. Open Scope string_scope.")
 
 # ENCLOSURE cases: the R-valued likelihood formulas the theorems are about, evaluated on the case's inputs by `interval`
 ENC_TAC = ("unfold lik_gmrf, gmrf_logpdf, lik_gauss_cov, lik_gauss_prec, lik_gauss_precvec, lik_gauss_covvec, lik_gauss_covdiag, "
@@ -1255,7 +1257,15 @@ def oracle(ctx, meta):
         if ga is None:
             return "the draw is not one numpy.random.gamma call"
         orc = oracle_sample(T, spec, ga[0], 1.0 / ga[1])
-        return orc["form_fail"] or orc["shape_fail"] or orc["rate_fail"]
+        if orc["form_fail"] or orc["shape_fail"]:
+            return orc["form_fail"] or orc["shape_fail"]
+        if orc["rate_fail"]:
+            Ax = np.ravel(np.asarray(T.likelihood.distribution(np.array([1])).mean, dtype=float))
+            v2 = float(np.sum((Ax - np.asarray(T.likelihood.data, dtype=float)) ** 2))
+            if sig_rate(iface, spec, 1.0 / ga[1], orc["r"], v2).endswith("rate:sqrt-eps-regularisation"):
+                return None        # the known (listed) deviation, already reported through the rate case -- not an explanation
+            return orc["rate_fail"]
+        return None
     if m.get("op") == "validate" and m["spec"]["prior"]["kind"] == "gamma" and m["spec"]["prior"].get("dim", 1) != 1 and m["spec"].get("posterior", True):
         spec, iface = m["spec"], m["iface"]
         try:
